@@ -345,6 +345,20 @@ class EuclideanMetricSystem(TractableFlowSystem):
         else:
             self.metric = metric
 
+    @property
+    def metric(self) -> matrices.PositiveDefiniteMatrix:
+        """Matrix representation of (fixed) metric on position space."""
+        return self._metric
+
+    @metric.setter
+    def metric(self, value: matrices.PositiveDefiniteMatrix) -> None:
+        self._metric = value
+        # Values cached in chain states (kinetic energy and its derivatives, Gram
+        # matrices of constrained systems...) depend on the metric: renew the token
+        # identifying this system in cache keys so values computed with a previous
+        # metric are not used
+        self.__dict__.pop("_state_cache_token", None)
+
     @cache_in_state("mom")
     def h2(self, state: ChainState) -> ScalarLike:
         return 0.5 * state.mom @ self.dh2_dmom(state)
